@@ -78,6 +78,13 @@ func (w *World) predicateContext(h *ssa.Function, r *Roles) (*predicateCtx, stri
 				if c, ok := st.Val.(*ssa.Call); ok && staticCallee(c) == r.CopyCtx {
 					fromCopy = true
 				}
+				// or from a constructor of the package that derives the per-node context: copy, then result = {node},
+				// position and size from its parameters
+				if c, ok := st.Val.(*ssa.Call); ok && staticCallee(c) != nil && staticCallee(c) != r.CopyCtx && fnPkgKey(staticCallee(c)) == "exec" {
+					if p := w.derivedContext(c, al, r); p != nil {
+						pc = p
+					}
+				}
 			}
 		}
 		if !fromCopy {
@@ -142,6 +149,112 @@ func (w *World) predicateContext(h *ssa.Function, r *Roles) (*predicateCtx, stri
 		return nil, why
 	}
 	return pc, ""
+}
+
+// derivedContext: call c = D(ctx, node, position, size ...) where D copies its context and stores one-node result,
+// position and size from its parameters; the facts are translated to the call's arguments.
+func (w *World) derivedContext(c *ssa.Call, al *ssa.Alloc, r *Roles) *predicateCtx {
+	d := staticCallee(c)
+	if d == nil || len(d.Blocks) == 0 {
+		return nil
+	}
+	var inner *ssa.Alloc
+	allInstrs(d, func(in ssa.Instruction) {
+		a, ok := in.(*ssa.Alloc)
+		if !ok || !types.Identical(a.Type().(*types.Pointer).Elem(), r.CtxType) {
+			return
+		}
+		for _, st := range storesInto(a) {
+			if st.Addr == ssa.Value(a) {
+				if cc, ok := st.Val.(*ssa.Call); ok && staticCallee(cc) == r.CopyCtx {
+					inner = a
+				}
+			}
+		}
+	})
+	if inner == nil {
+		return nil
+	}
+	// every return hands back the derived context
+	okRet := true
+	allInstrs(d, func(in ssa.Instruction) {
+		if ret, ok := in.(*ssa.Return); ok {
+			ld, ok := ret.Results[0].(*ssa.UnOp)
+			if !ok || ld.X != ssa.Value(inner) {
+				okRet = false
+			}
+		}
+	})
+	if !okRet {
+		return nil
+	}
+	argOf := func(v ssa.Value) ssa.Value {
+		for i, p := range d.Params {
+			if ssa.Value(p) == v && i < len(c.Call.Args) {
+				return c.Call.Args[i]
+			}
+		}
+		return nil
+	}
+	p := &predicateCtx{Alloc: al}
+	var posVal, sizeVal ssa.Value
+	for _, st := range storesInto(inner) {
+		fa, ok := st.Addr.(*ssa.FieldAddr)
+		if !ok || fa.X != ssa.Value(inner) {
+			continue
+		}
+		switch fa.Field {
+		case r.CtxResultField:
+			if sl, ok := stripConv(st.Val).(*ssa.Slice); ok {
+				if arr, ok := sl.X.(*ssa.Alloc); ok {
+					elems := storesInto(arr)
+					if at, ok := arr.Type().(*types.Pointer).Elem().(*types.Array); ok && at.Len() == 1 && len(elems) == 1 {
+						if a := argOf(elems[0].Val); a != nil {
+							if ld, ok := a.(*ssa.UnOp); ok {
+								if ia, ok := ld.X.(*ssa.IndexAddr); ok {
+									p.OneNode = true
+									p.Idx = ia.Index
+									p.Set = ia.X
+								}
+							}
+						}
+					}
+				}
+			}
+		case r.CtxPosField:
+			posVal = st.Val
+		case r.CtxSizeField:
+			sizeVal = st.Val
+		}
+	}
+	if p.Idx == nil {
+		return nil
+	}
+	if posVal != nil {
+		// position = (parameter + k) inside, parameter = i + m at the call
+		inOff := int64(0)
+		base := posVal
+		if bo, ok := posVal.(*ssa.BinOp); ok && bo.Op == token.ADD {
+			if k, ok := constInt(bo.Y); ok {
+				inOff, base = k, bo.X
+			}
+		}
+		if a := argOf(base); a != nil {
+			if o, ok := intOffset(a, p.Idx); ok {
+				p.PosOffset, p.PosOK = o+inOff, true
+			}
+		}
+	}
+	if sizeVal != nil {
+		if a := argOf(sizeVal); a != nil {
+			if cc, ok := a.(*ssa.Call); ok && isLenOf(cc, nil) && cc.Call.Args[0] == p.Set {
+				p.SizeOK = true
+			} else {
+				p.SizeWhy = "size is " + describe(a) + ", not the length of the node-set being filtered"
+			}
+		}
+	}
+	return p
 }
 
 func checkC02(w *World) {
@@ -822,6 +935,27 @@ func plainStepGuard(v ssa.Value) bool {
 		// a predicate of the package on the nonterminal of the step ("has predicates")
 		if h := staticCallee(x); h != nil && inRepo(h) && len(h.Params) == 1 && isNT(h.Params[0].Type()) {
 			return true
+		}
+		// ... or on the step's parse node, as long as everything it branches on is the nonterminal
+		if h := staticCallee(x); h != nil && inRepo(h) && len(h.Params) == 1 && len(h.Blocks) > 0 {
+			onlyNT, n := true, 0
+			allInstrs(h, func(in ssa.Instruction) {
+				ifi, ok := in.(*ssa.If)
+				if !ok {
+					return
+				}
+				n++
+				if theWorld == nil {
+					onlyNT = false
+					return
+				}
+				if _, isNTCmp := ntLabel(theWorld.Facts())(ifi); !isNTCmp {
+					onlyNT = false
+				}
+			})
+			if onlyNT && n > 0 {
+				return true
+			}
 		}
 	case *ssa.Lookup:
 		// membership of the nonterminal in a set literal
